@@ -44,6 +44,7 @@ class FleetOracle(Oracle):
     def __init__(self, res):
         self.res = res
         self.wakes = []
+        self.cap_wakes = []      # (instant, sequence number of the load that brought the fleet to capacity)
         self.next_tick = None
         self.load = {}      # id(item) -> (p, item, seq)
         self.avail = {}     # id(item) -> a
@@ -64,12 +65,15 @@ class FleetOracle(Oracle):
             self.wakes.append(w)
             self.next_tick = w + self.delay
 
-    def candidates(self, p):
-        """departure instants admissible for an item loaded at p (first wake >= p; both when tie)"""
+    def candidates(self, p, seq=None):
+        """departure instants admissible for an item loaded at p (first wake >= p; both when tie - except
+        when the departure was caused by a load that is not older than this item: then it was waiting)"""
         ws = [w for w in self.wakes if w >= p or close(w, p)]
         if not ws:
             return None
         out = [ws[0]]
+        if close(ws[0], p) and seq is not None and any(close(w, ws[0]) and s >= seq for (w, s) in self.cap_wakes):
+            return out
         if close(ws[0], p):
             nxt = [w for w in ws if w > ws[0] and not close(w, ws[0])]
             if nxt:
@@ -107,7 +111,7 @@ class FleetOracle(Oracle):
             p, _, seq = self.load[id(x)]
             self.avail[id(x)] = now
             self.deliveries.add(now)
-            c = self.candidates(p)
+            c = self.candidates(p, seq)
             flag = "loaded_during_trip" if self.in_trip(p) else "plain"
             if c is None:
                 self.res.violate(("premature", flag),
@@ -137,7 +141,7 @@ class FleetOracle(Oracle):
         for i, (p, item, seq) in self.load.items():
             if i in self.avail:
                 continue
-            c = self.candidates(p)
+            c = self.candidates(p, seq)
             if not c:
                 continue
             last = c[-1]
@@ -167,6 +171,7 @@ class FleetOracle(Oracle):
             held = len(h.put_items) - len(h.got_items)
             if held == h.subj.capacity:
                 self.wakes.append(now)
+                self.cap_wakes.append((now, len(self.load) - 1))
                 self.next_tick = now + self.delay
                 h.flags.add("capacity_departure")
             if self.in_trip(now) or any(close(w, now) for w in self.wakes):
